@@ -375,7 +375,7 @@ def minimise(case, sig):
     def has(c):
         tests[0] += 1
         try:
-            return sig in {s for s, _ in execute(c)["problems"]}
+            return sig in {s for s, _ in core.isolated(execute, c)["problems"]}
         except Exception:
             return False
 
@@ -424,7 +424,7 @@ def minimise(case, sig):
 
 
 def write_replay(case, sig, msg, info):
-    out = execute(case)
+    out = core.isolated(execute, case)
     sigs = dict(out["problems"])
     if sig not in sigs:
         return None
